@@ -634,7 +634,7 @@ func suiteC08(c *ctx) {
 			}
 			cc.Members = append(cc.Members, w)
 		}
-		if i%13 == 5 {
+		if i%13 == 5 || i%13 == 11 {
 			// a member whose payload ends one or two bytes past a multiple of the decoder's output
 			// window, over a tiny alphabet (short codes: the last literals and the end-of-block code
 			// share one lookup entry), written by fastgo's Huffman-only or level-1 writer, followed by
@@ -645,6 +645,8 @@ func suiteC08(c *ctx) {
 			next.Ops = []Op{{K: "w", N: next.Datas[0].N}, {K: "c"}}
 			cc.Members = []*WCase{big, next}
 			cc.Reads = "big"
+			// (packed entries are used for a final block only when enough input is buffered behind it)
+			cc.Buf = r.Pick([]int{4096, 8192, 65536})
 		}
 		cc.W = cc.Members[0]
 		if r.Intn(3) == 0 {
